@@ -12,7 +12,7 @@ BAND = 2e-4      # float32 rounding band around sphere surfaces / cut-offs (excl
 
 def mk_struct(rng, n, cls=ml.Molecule):
     m = cls(n_atoms=n)
-    els = [1, 6, 7, 8, 9, 15, 16, 17]
+    els = [1, 6, 7, 8, 9, 15, 16, 17, 11, 14, 19, 50]          # incl. atoms whose van der Waals radius exceeds 2 A
     for a in m.atoms:
         a.element = ml.Element.get(int(rng.choice(els)))
     m.coords = rng.uniform(-3, 3, size=(n, 3))
